@@ -95,7 +95,6 @@ func createRightBounded(right *FieldRef, ri bool, isInfinityIncluded bool) *Rang
 	}
 	nr.right = right
 	nr.rightIncluded = ri
-	nr.turnOpenRangeIntoClosed()
 	// Special case for [-Inf, -Inf]
 	if nr.right.IsNegativeInfinity() && ri {
 		nr.leftIncluded = true
@@ -112,7 +111,6 @@ func createLeftBounded(left *FieldRef, li bool, isInfinityIncluded bool) *Range 
 	}
 	nr.left = left
 	nr.leftIncluded = li
-	nr.turnOpenRangeIntoClosed()
 	// Special case for [+Inf, +Inf]
 	if nr.left.IsPositiveInfinity() && li {
 		nr.rightIncluded = true
